@@ -18,7 +18,39 @@ import modref
 PB = "mqtt::connection::packet_builder::PacketBuilder"
 PBR = "mqtt::connection::packet_builder::PacketBuildResult"
 RS = "mqtt::connection::packet_builder::ReadState"
-REASM = {"state", "header_buf", "remaining_length", "multiplier", "raw_buf", "raw_buf_offset"}
+
+
+def discover_roles(F, feed_paths, interned):
+    """Reassembly fields by role (type first, then use), so that renaming a private field is not an anchor loss:
+    state (the enum), header_buf (byte vector), multiplier (the only u32), raw_buf (optional byte vector),
+    raw_buf_offset (the usize that starts the index range of the bulk read), remaining_length (the other usize)."""
+    flds = F.adt(PB)["variants"][0]["fields"]
+    roles = {}
+
+    def uniq(role, pred):
+        c = [f["name"] for f in flds if pred(f["ty"])]
+        if len(c) == 1:
+            roles[role] = c[0]
+    uniq("state", lambda ty: ty in F.adts and F.adts[ty].get("kind") == "enum")
+    uniq("header_buf", lambda ty: ty.startswith("std::vec::Vec<u8") or ty.startswith("arrayvec::ArrayVec<u8"))
+    uniq("multiplier", lambda ty: ty == "u32")
+    uniq("raw_buf", lambda ty: ty.startswith("std::option::Option<"))
+    us = [f["name"] for f in flds if f["ty"] == "usize"]
+    if len(us) == 2:
+        off = set()
+        for p in feed_paths:
+            for e in p.effects:
+                if e[0] == "call" and e[1].endswith("::index_mut") and len(e[3]) > 1:
+                    rng = conn.expand_all(interned, e[3][1])
+                    if rng[0] == "agg" and rng[2] in ("Range", "RangeFrom"):
+                        r = repr(rng[3][0])
+                        for n in us:
+                            if "'%s'" % n in r:
+                                off.add(n)
+        if len(off) == 1:
+            roles["raw_buf_offset"] = list(off)[0]
+            roles["remaining_length"] = [n for n in us if n not in off][0]
+    return roles
 
 
 def check(run, F, tier):
@@ -52,8 +84,20 @@ def check(run, F, tier):
             r1.violation(v, "recv(): build result %s yields %s, expected %s" % (v, sorted(seen.get(v, [])), sorted(ws)))
 
     feed = F.fn(PB + "::feed")
-    ex = explore.Explorer(F, loop_k=1)
+    def inl_pb(exx, callee, info):
+        # private helpers of the framer are analysed in context; reset() stays a visible call (R2 looks for it)
+        if callee.get("impl_self", "").startswith(PB) and callee.get("name") not in ("reset", "feed", "new"):
+            return True
+        return explore.default_inline(exx, callee, info)
+    ex = explore.Explorer(F, loop_k=1, inline_pred=inl_pb)
     ps = ex.run(feed["path"])
+    R = discover_roles(F, ps, ex.interned_rev)
+    need = ("state", "header_buf", "remaining_length", "multiplier", "raw_buf", "raw_buf_offset")
+    if any(k not in R for k in need):
+        run.fail_closed("PacketBuilder reassembly fields not recognised by type/use: found %s" % R)
+        return
+    REASM = set(R.values())
+    run.cov_extra["roles"] = R
     r2 = run.rule("C09-R2", "feed resets the reassembly state on every Complete / Error return", floor=3)
     N = modref.Norm(F)
     if N.reset_equiv(PB + "::reset"):
@@ -100,7 +144,7 @@ def check(run, F, tier):
                 n_hdr += 1
                 pushed = False
                 for x in p.effects[i + 1:]:
-                    if x[0] == "push" and x[1] == ("self",) and len(x) > 4 and "header_buf" in repr(x[4]):
+                    if x[0] == "push" and x[1] == ("self",) and len(x) > 4 and ("'%s'" % R["header_buf"]) in repr(x[4]):
                         pushed = True
                         break
                     if x[0] == "call" and x[1].split("::")[-1] in ("read_exact", "read"):
@@ -115,21 +159,20 @@ def check(run, F, tier):
                 okslice = False
                 if im:
                     j, x = im[-1]
-                    wr = [w for w in p.effects[j:j + 3] if w[0] == "write" and conn.field_of_write(w) == "raw_buf"]
+                    wr = [w for w in p.effects[j:j + 3] if w[0] == "write" and conn.field_of_write(w) == R["raw_buf"]]
                     rng = x[3][1] if len(x[3]) > 1 else None
-                    cur_off = ("sym", conn.field_term("raw_buf_offset"))
-                    offs = [w for w in p.effects[:j] if w[0] == "write" and conn.field_of_write(w) == "raw_buf_offset"]
+                    offs = [w for w in p.effects[:j] if w[0] == "write" and conn.field_of_write(w) == R["raw_buf_offset"]]
                     start = rng[3][0] if rng and rng[0] == "agg" and rng[2] == "Range" else None
                     if offs:
                         okstart = start == offs[-1][3]
                     else:
-                        okstart = start is not None and start[0] == "sym" and start[1][0] == "init" and "raw_buf_offset" in repr(start)
+                        okstart = start is not None and start[0] == "sym" and start[1][0] == "init" and ("'%s'" % R["raw_buf_offset"]) in repr(start)
                     okslice = bool(wr) and okstart
                 if not okslice:
                     problems.setdefault("bulk read does not target raw_buf[raw_buf_offset ..]", p)
                 later = p.effects[i:]
-                adv = [w for w in later if w[0] == "write" and conn.field_of_write(w) == "raw_buf_offset"]
-                dec = [w for w in later if w[0] == "write" and conn.field_of_write(w) == "remaining_length"]
+                adv = [w for w in later if w[0] == "write" and conn.field_of_write(w) == R["raw_buf_offset"]]
+                dec = [w for w in later if w[0] == "write" and conn.field_of_write(w) == R["remaining_length"]]
                 rterm = repr(e[4])
                 if not adv or "'Add'" not in repr(adv[0][3]) or "Cursor::<T>::read" not in repr(conn.expand_all(ex.interned_rev, adv[0][3])):
                     problems.setdefault("raw_buf_offset is not advanced by the number of bytes read", p)
@@ -149,9 +192,9 @@ def check(run, F, tier):
     dom = [1, 128, 128 * 128, 128 * 128 * 128]
     for m in dom:
         def setup(exx, st, fr, m=m):
-            st.heap[(("self",), (("f", pbf["multiplier"]["i"], "multiplier"),))] = ("c", m, "u32")
-            st.heap[(("self",), (("f", pbf["state"]["i"], "state"),))] = ("agg", RS, "RemainingLength", ())
-        ex2 = explore.Explorer(F, loop_k=0)
+            st.heap[(("self",), (("f", pbf[R["multiplier"]]["i"], R["multiplier"]),))] = ("c", m, "u32")
+            st.heap[(("self",), (("f", pbf[R["state"]]["i"], R["state"]),))] = ("agg", RS, "RemainingLength", ())
+        ex2 = explore.Explorer(F, loop_k=0, inline_pred=inl_pb)
         ps2 = ex2.run(feed["path"], setup=setup)
         problems = []
         cont_err = False
@@ -164,11 +207,11 @@ def check(run, F, tier):
                 continue
             n += 1
             for e in p.effects:
-                if e[0] == "assert" and e[3] == "open" and e[4][0] == "Mul" and "multiplier" in repr(conn.expand_all(ex2.interned_rev, e[4])):
+                if e[0] == "assert" and e[3] == "open" and e[4][0] == "Mul" and ("'%s'" % R["multiplier"]) in repr(conn.expand_all(ex2.interned_rev, e[4])):
                     problems.append("multiplier update may overflow (not decided) at line %s" % e[2][1])
             # final state / multiplier
-            st_w = [e for e in p.effects if e[0] == "write" and conn.field_of_write(e) == "state"]
-            mu_w = [e for e in p.effects if e[0] == "write" and conn.field_of_write(e) == "multiplier"]
+            st_w = [e for e in p.effects if e[0] == "write" and conn.field_of_write(e) == R["state"]]
+            mu_w = [e for e in p.effects if e[0] == "write" and conn.field_of_write(e) == R["multiplier"]]
             reset = bool(conn.calls(p, PB + "::reset"))
             final_state = st_w[-1][3][2] if st_w and st_w[-1][3][0] == "agg" else "RemainingLength"
             if not reset and final_state == "RemainingLength" and mu_w:
